@@ -102,6 +102,10 @@ impl Stage for Histories {
             2 => 1u64..120_000,
             1 => Just(MIN15 - 1),
             1 => Just(MIN15 + 1),
+            // very long pauses: powers of two of the millisecond count (2^20 ms = 17 min .. 2^40 ms
+            // = 35 years; 2^32 ms = 49.7 days) give or take 5 s, and the same minus 15 minutes
+            2 => (20u32..=40, 0u64..10_000, any::<bool>()).prop_map(|(k, d, minus15)| ((1u64 << k) + d).saturating_sub(5_000).saturating_sub(if minus15 { MIN15 } else { 0 }).max(1)),
+            1 => prop_oneof![Just(86_400_000u64), Just(30 * 86_400_000u64), Just((1u64 << 32) - 1_000), Just((1u64 << 32) + 1_000), Just((1u64 << 32) - MIN15 + 1_000)],
         ];
         (1u8..=6)
             .prop_flat_map(move |n| {
@@ -230,7 +234,7 @@ impl Stage for Histories {
         })
     }
     fn rule(&self) -> String {
-        "histories of 1..60 events for 1..6 interleaved contacts on the real RoutingTable under a paused clock: answer, hearsay mention, query received, query sent, time steps (1 s, 14 m 59 s, 15 m 1 s, 15 m +/- 5 s, 15 m +/- 1 ms, 16 m, 1 h, random < 2 min), applied through the API the handler uses. Oracle: independent per-contact status model (good iff answered within 15 min, or known with < 2 unanswered queries and queried us within 15 min; absent iff not good with >= 2 consecutive unanswered queries; else questionable; a mention re-admits a dropped contact as fresh hearsay; its own queries never do), compared with Node::status() and load_contacts() after every event. Ages of exactly 15 min end the case. Non-trivial: a step >= 15 min and a query sent while not good".into()
+        "histories of 1..60 events for 1..6 interleaved contacts on the real RoutingTable under a paused clock: answer, hearsay mention, query received, query sent, time steps (1 s, 14 m 59 s, 15 m 1 s, 15 m +/- 5 s, 15 m +/- 1 ms, 16 m, 1 h, random < 2 min; very long pauses: 1 day, 30 days, 2^k ms +/- 5 s for k = 20..40 (2^32 ms = 49.7 days), also minus 15 min), applied through the API the handler uses. Oracle: independent per-contact status model (good iff answered within 15 min, or known with < 2 unanswered queries and queried us within 15 min; absent iff not good with >= 2 consecutive unanswered queries; else questionable; a mention re-admits a dropped contact as fresh hearsay; its own queries never do), compared with Node::status() and load_contacts() after every event. Ages of exactly 15 min end the case. Non-trivial: a step >= 15 min and a query sent while not good".into()
     }
 }
 
